@@ -93,7 +93,15 @@ def run_tsan(args):
 # (3) sequential orders
 SEQ_PRE = 'n = 10; base = 5; name = "nm"; function fsq(a) return integer is begin print "f" a; return a * a; end;'
 SEQ_PROG = 'n = n + 1; t = tab(2, n); print n fsq(n) t.count(); b1 = base + n; b2 = base + n; c1 = name; c2 = name + "x"; print b1 b2 c1 c2 base name;'
+INC_PATH = os.path.join(build.BUILD, "scratch", "c14-inc.bloc")
+SEQ_PROG += ' include "%s"; print inc;' % INC_PATH       # the included source runs in the context that executes the program
 OPS = ["C", "RC", "RO", "PO", "FO", "FC", "FX"]
+
+
+def write_include():
+    os.makedirs(os.path.dirname(INC_PATH), exist_ok=True)
+    with open(INC_PATH, "w") as f:
+        f.write("inc = n * 2;\n")
 
 
 def seq_orders(maxlen):
@@ -115,12 +123,12 @@ def seq_orders(maxlen):
                 if not s["clone"] or not s["exe"] or not s["clone_has"]:
                     continue
                 s["nc"] += 1
-                o = ("c", "%df%d\n%d2\n%d%dnmnmx5nm\n" % (s["nc"], s["nc"], s["nc"] ** 2, 5 + s["nc"], 5 + s["nc"]))
+                o = ("c", "%df%d\n%d2\n%d%dnmnmx5nm\n%d\n" % (s["nc"], s["nc"], s["nc"] ** 2, 5 + s["nc"], 5 + s["nc"], 2 * s["nc"]))
             elif op == "RO":
                 if not s["orig"] or s["purged"] or not s["exe"]:
                     continue
                 s["no"] += 1
-                o = ("o", "%df%d\n%d2\n%d%dnmnmx5nm\n" % (s["no"], s["no"], s["no"] ** 2, 5 + s["no"], 5 + s["no"]))
+                o = ("o", "%df%d\n%d2\n%d%dnmnmx5nm\n%d\n" % (s["no"], s["no"], s["no"] ** 2, 5 + s["no"], 5 + s["no"], 2 * s["no"]))
             elif op == "PO":
                 if not s["orig"] or s["purged"]:
                     continue
@@ -143,6 +151,8 @@ def seq_orders(maxlen):
 
 def seq_gen(tier):
     maxlen = 6 if tier == "thorough" else 5
+
+    write_include()
 
     def gen():
         n = 0
